@@ -1,22 +1,81 @@
 import KlogV.Model.Canon
+import KlogV.Model.Parallel
+import KlogV.Model.Calendar
+import KlogV.Model.Eval
+import KlogV.Model.Serialiser
+import KlogV.Model.Tags
 open KlogV
 
 def optStr {α} (f : α → String) : Option α → String
   | some a => f a
   | none => "err"
 
-def handle (line : String) : String :=
-  match (line.splitOn " ").filter (· ≠ "") with
+def resStr {α} (f : α → String) : Res α → String
+  | .ok a => "ok " ++ f a
+  | .err => "err"
+  | .panic => "panic"
+
+def canonDate (d : Date) : String := String.ofList d.print
+
+def dateOfArgs (y m d : String) : Date := ⟨y.toNat!, m.toNat!, d.toNat!, true⟩
+
+def canonPeriod (p : Period) : String := s!"{canonDate p.since}..{canonDate p.until_}"
+
+def timeOfArgs (h m s f : String) : Time := ⟨h.toNat!, m.toNat!, s.toInt!, f == "1"⟩
+
+def allKinds : List PeriodKind := [.day, .week, .month, .quarter, .year]
+
+def calLine (x : Date) : String :=
+  let wk := x.isoWeek
+  let plus := [1, -1, 7, -7, -25, -80, 365, -366].map (fun n => optStr canonDate (x.plusDays n))
+  let pers := allKinds.map (fun k => optStr canonPeriod (periodOf k x))
+  let prevs := allKinds.map (fun k => optStr canonDate (previousDate k x))
+  let hashes := allKinds.map (fun k => toString (hashOf k x))
+  s!"wd={x.weekday} iso={wk.1}/{wk.2} q={x.quarter} dn={dayNumber x} plus={commaSep plus} per={commaSep pers} prev={commaSep prevs} hash={commaSep hashes}"
+
+def evalLine (rs : List Record) : String :=
+  let per := rs.map (fun r => s!"{r.total}/{r.shouldMins}")
+  s!"total={resStr toString (totalRes rs)} should={resStr toString (shouldRes rs)} diff={resStr toString ((totalRes rs).bind fun t => (shouldRes rs).bind fun s => diffRes s t)} per=[{commaSep per}]"
+
+def withRecords (h : String) (f : List Record → String) : String :=
+  match parseDoc (bytesOfHex h) with
+  | .records rs _ => f rs
+  | .errors _ => "errors"
+  | .panic => "panic"
+
+def handle (args : List String) : String :=
+  match args with
   | ["blocks", h] => "ok " ++ canonBlocks (blocksOf (bytesOfHex h))
   | ["parse", h] => canonDoc (parseDoc (bytesOfHex h))
+  | ["pblocks", h, n] => "ok " ++ canonBlocks (parallelBlocks (bytesOfHex h) n.toNat!)
+  | ["chunks", h, n] => "ok " ++ commaSep ((splitIntoChunks (bytesOfHex h) n.toNat!).map (fun c => hexOrDash (hexOfBytes c)))
+  | ["date", h] => optStr (fun d => "ok " ++ canonDate d) (Date.parse (decodeGo (bytesOfHex h)))
+  | ["time", h] => optStr (fun t => "ok " ++ canonTime t ++ " " ++ String.ofList t.print ++ " " ++ toString t.offset) (Time.parse (decodeGo (bytesOfHex h)))
+  | ["dur", h] => resStr (fun d => toString d.mins ++ " " ++ String.ofList d.print ++ " " ++ String.ofList d.printSigned) (Dur.parse (decodeGo (bytesOfHex h)))
+  | ["timeplus", h, m, s, f, d] => optStr (fun t => "ok " ++ canonTime t ++ " " ++ String.ofList t.print) ((timeOfArgs h m s f).plus d.toInt!)
+  | ["range", h1, h2] =>
+    (match Time.parse (decodeGo (bytesOfHex h1)), Time.parse (decodeGo (bytesOfHex h2)) with
+     | some a, some b => if b.afterOrEqual a then s!"ok {b.offset - a.offset} {String.ofList (EntryVal.range a b true).print}" else "err"
+     | _, _ => "err")
+  | ["cal", y, m, d] => calLine (dateOfArgs y m d)
+  | ["pattern", h] => resStr canonPeriod (periodFromPattern (decodeGo (bytesOfHex h)))
+  | ["eval", h] => withRecords h evalLine
+  | ["evalnow", h, y, m, d, hh, mm] =>
+    withRecords h fun rs =>
+      match closeOpenRanges ⟨dateOfArgs y m d, hh.toNat!, mm.toNat!⟩ rs with
+      | .ok (rs', closed) => s!"closed={b01 closed} " ++ evalLine rs'
+      | .err => "uncloseable"
+      | .panic => "panic"
+  | ["print", h] => withRecords h fun rs => "ok " ++ hexOrDash (hexOfChars (printRecords rs))
   | _ => "bad-op"
 
 partial def loop (hin : IO.FS.Stream) (hout : IO.FS.Stream) : IO Unit := do
   let line ← hin.getLine
   if line.isEmpty then return ()
-  hout.putStrLn (handle (line.dropRightWhile (fun c => c == '\n' || c == '\r')))
+  let line := (line.toList.filter (fun c => c != '\n' && c != '\r'))
+  hout.putStrLn (handle ((String.ofList line).splitOn " " |>.filter (· ≠ "")))
   hout.flush
   loop hin hout
 
-def main : IO Unit := do
+def main (_args : List String) : IO Unit := do
   loop (← IO.getStdin) (← IO.getStdout)
